@@ -1,5 +1,6 @@
 import Driver.Ts
 import Driver.Orswot
+import Driver.Rpc
 /- `dcdriver`: reads a case file on stdin, answers every line with the model's output. -/
 namespace Driver
 
@@ -7,11 +8,13 @@ inductive Dom where
   | none
   | ts (s : TsDom.State)
   | orswot (s : OrswotDom.State)
+  | rpc (s : RpcDom.State)
 
 def newDom (name : String) (params : List String) : Dom :=
   match name with
   | "ts" => .ts {}
   | "orswot" => .orswot (OrswotDom.init params)
+  | "rpc" => .rpc {}
   | _ => .none
 
 def stepDom (d : Dom) (toks : List String) : Dom × String :=
@@ -19,6 +22,7 @@ def stepDom (d : Dom) (toks : List String) : Dom × String :=
   | .none => (d, "bad-op")
   | .ts s => let (s', o) := TsDom.step s toks; (.ts s', o)
   | .orswot s => let (s', o) := OrswotDom.step s toks; (.orswot s', o)
+  | .rpc s => let (s', o) := RpcDom.step s toks; (.rpc s', o)
 
 partial def loop (h : IO.FS.Stream) (out : IO.FS.Stream) (d : Dom) : IO Unit := do
   let line ← h.getLine
